@@ -7,7 +7,9 @@
 (* handler on entry); exit(c, o) the downstream handler is about to return *)
 (* outcome o; end(c, res) the caller got res; quiesce(cr) nothing is in    *)
 (* flight and ConcurrentRequests() = cr; probe(n) Max fresh requests were  *)
-(* started at quiescence and n of them entered.                            *)
+(* started at quiescence and n of them entered; cancel(c) the caller's     *)
+(* own context was cancelled (from then on c may leave the queue with an   *)
+(* error at any time - but still enters only with a permit).               *)
 (*   - never more than Max executing (enter needs infl < Max)              *)
 (*   - a request ends with the timeout error only if it never entered, a   *)
 (*     timeout is configured and it waited at least that long (`full`      *)
@@ -38,7 +40,7 @@ EXTENDS Integers, Sequences, FiniteSets, TLC
 
 ---------------------------------------------------------------------------
 SemInit(e) == [kind |-> "sem", max |-> e.max, timeout |-> e.timeout,
-               infl |-> {}, waiting |-> {}, full |-> {}, since |-> <<>>, out |-> <<>>]
+               infl |-> {}, waiting |-> {}, full |-> {}, since |-> <<>>, out |-> <<>>, cancelled |-> {}]
 
 MarkFull(s) == IF Cardinality(s.infl) = s.max THEN [s EXCEPT !.full = s.full \cup s.waiting] ELSE s
 
@@ -55,11 +57,16 @@ SemStep(s, e) ==
       [] e.ev = "end" ->
             IF e.c \in DOMAIN s.out
             THEN IF e.res = s.out[e.c] THEN {[s EXCEPT !.out = [c \in (DOMAIN s.out) \ {e.c} |-> s.out[c]]]} ELSE {}
+            ELSE IF e.c \in s.waiting /\ e.c \in s.cancelled
+            THEN \* its own context ended while it waited: it leaves with an error, whenever that was
+                 IF e.res \in {"timeout", "canceled"} /\ s.timeout > 0
+                 THEN {[s EXCEPT !.waiting = @ \ {e.c}, !.full = @ \ {e.c}]} ELSE {}
             ELSE IF e.c \in s.waiting
             THEN IF /\ e.res = "timeout" /\ s.timeout > 0
                     /\ e.t - s.since[e.c] >= s.timeout     \* the timer never fires early
                  THEN {[s EXCEPT !.waiting = @ \ {e.c}, !.full = @ \ {e.c}]} ELSE {}
             ELSE {}
+      [] e.ev = "cancel" -> {[s EXCEPT !.cancelled = @ \cup {e.c}]}
       [] e.ev = "quiesce" ->
             IF s.infl = {} /\ s.waiting = {} /\ e.cr = 0 THEN {s} ELSE {}
       [] e.ev = "probe" ->
